@@ -338,9 +338,13 @@ register_numeric_function("log",
                           docstring="Logarithm function. The first argument determines the base.")
 
 def max_vararg(*args):
-    return max(*args)
+    if len(args) == 0:
+        raise FunctionArgError("Tried to get maximum of no arguments.")
+    return max(args)
 def min_vararg(*args):
-    return min(*args)
+    if len(args) == 0:
+        raise FunctionArgError("Tried to get minimum of no arguments.")
+    return min(args)
 register_function(max_vararg, "max", tuple(), vararg_type=Number)
 register_function(min_vararg, "min", tuple(), vararg_type=Number)
 
